@@ -232,7 +232,8 @@ func runWorker(bin string, req *core.Request, tmp string, tag string, timeout ti
 		f.Close()
 	}
 	if werr != nil {
-		res.err = fmt.Errorf("%v\n%s", werr, tail(buf.String(), 4000))
+		// (the fatal line of a runtime death is at the head of a long goroutine dump)
+		res.err = fmt.Errorf("%v\n%s\n%s", werr, fatalLine(buf.String()), tail(buf.String(), 4000))
 	}
 	return res
 }
@@ -484,6 +485,7 @@ func runCheck(id, tier string) int {
 	a := newAgg()
 	var mu sync.Mutex
 	var harnessErr []string
+	var crashed *crashRec // the run in progress when a worker process died (CrashIsViolation properties)
 	next := 0
 	deadline := time.Now().Add(time.Duration(b.WallS) * time.Second) // the budget starts after the build
 	var wg sync.WaitGroup
@@ -493,7 +495,7 @@ func runCheck(id, tier string) int {
 			defer wg.Done()
 			for bn := 0; ; bn++ {
 				mu.Lock()
-				if next >= b.Runs || time.Now().After(deadline) || len(harnessErr) > 0 || (a.unknownViolations(id) >= 6 && os.Getenv("VERIF_ENUM") == "") {
+				if next >= b.Runs || time.Now().After(deadline) || len(harnessErr) > 0 || crashed != nil || (a.unknownViolations(id) >= 6 && os.Getenv("VERIF_ENUM") == "") {
 					mu.Unlock()
 					return
 				}
@@ -523,8 +525,25 @@ func runCheck(id, tier string) int {
 					}
 					a.add(id, r)
 				}
-				if res.err != nil {
-					harnessErr = append(harnessErr, res.err.Error())
+				if res.err != nil && p.CrashIsViolation && crashed == nil && looksLikeProcessDeath(res.err.Error()) {
+					// which run was in progress?
+					done := map[uint64]bool{}
+					for _, r := range res.recs {
+						done[r.Seed] = true
+					}
+					for _, sd := range req.Seeds {
+						if !done[sd] {
+							crashed = &crashRec{seed: sd, bin: binFor(lo, batch), log: res.err.Error()}
+							break
+						}
+					}
+					if crashed == nil {
+						harnessErr = append(harnessErr, res.err.Error())
+					}
+				} else if res.err != nil {
+					if !(p.CrashIsViolation && crashed != nil && looksLikeProcessDeath(res.err.Error())) {
+						harnessErr = append(harnessErr, res.err.Error())
+					}
 				} else if len(res.recs) != hi-lo {
 					harnessErr = append(harnessErr, fmt.Sprintf("worker returned %d of %d records\n%s", len(res.recs), hi-lo, tail(res.log, 3000)))
 				}
@@ -537,7 +556,16 @@ func runCheck(id, tier string) int {
 		fmt.Fprintf(os.Stderr, "HARNESS: %s\n", strings.Join(harnessErr[:min(len(harnessErr), 3)], "\n---\n"))
 		return 2
 	}
-	if a.runs == 0 {
+	crashPath, crashMsg := "", ""
+	if crashed != nil {
+		var cerr error
+		crashPath, crashMsg, cerr = confirmCrash(p, crashed, tier, tmp)
+		if cerr != nil {
+			fmt.Fprintf(os.Stderr, "HARNESS: a worker process died and the death could not be pinned on one run: %v\n%s\n", cerr, tail(crashed.log, 3000))
+			return 2
+		}
+	}
+	if a.runs == 0 && crashed == nil {
 		fmt.Fprintln(os.Stderr, "HARNESS: no runs completed")
 		return 2
 	}
@@ -584,6 +612,12 @@ func runCheck(id, tier string) int {
 		}
 		fmt.Printf("VIOLATION property=%s replay=%s\n", id, path)
 		fmt.Printf("  oracle=%s signature=%s\n  %s\n", vr.v.Oracle, sig, vr.v.Message)
+		exit = 1
+	}
+	if crashPath != "" {
+		nviol++
+		fmt.Printf("VIOLATION property=%s replay=%s\n", id, crashPath)
+		fmt.Printf("  oracle=process-survives signature=%s/worker-process-killed\n  %s\n", id, crashMsg)
 		exit = 1
 	}
 	wall := time.Since(t0).Seconds()
@@ -646,6 +680,88 @@ type ReplayFile struct {
 	Log       []string        `json:"log,omitempty"`
 	Violation *core.Violation `json:"violation"`
 	Unstable  string          `json:"unstable,omitempty"` // set when the code under test did not behave the same in every fresh process
+	Crash     bool            `json:"crash,omitempty"`    // the violation is the death of the process executing this plan
+}
+
+// crashRec: a worker process died while this run was in progress.
+type crashRec struct {
+	seed uint64
+	bin  string
+	log  string
+}
+
+// looksLikeProcessDeath: the worker ended by a fatal runtime error or a signal,
+// not by the harness's own exit paths (which print HARNESS:) or the watchdog.
+func looksLikeProcessDeath(msg string) bool {
+	if strings.Contains(msg, "watchdog:") || strings.Contains(msg, "HARNESS:") {
+		return false
+	}
+	return strings.Contains(msg, "fatal error:") || strings.Contains(msg, "signal: killed") || strings.Contains(msg, "out of memory") || strings.Contains(msg, "cannot allocate memory")
+}
+
+func fatalLine(log string) string {
+	for _, l := range strings.Split(log, "\n") {
+		if strings.Contains(l, "fatal error:") || strings.Contains(l, "out of memory") || strings.Contains(l, "signal: killed") || strings.Contains(l, "cannot allocate memory") {
+			return strings.TrimSpace(l)
+		}
+	}
+	return "(no fatal runtime line in the worker's output)"
+}
+
+// dies executes a plan in a fresh worker process and reports whether the
+// process died (no record, fatal error) and the fatal line.
+func dies(bin string, plan *core.Plan, tmp, tag string) (bool, string) {
+	r := runWorker(bin, &core.Request{Mode: "exec", Plan: plan}, tmp, tag, 5*time.Minute, 1)
+	if r.err != nil && len(r.recs) == 0 && looksLikeProcessDeath(r.err.Error()) {
+		return true, fatalLine(r.err.Error())
+	}
+	return false, ""
+}
+
+// confirmCrash pins a worker death on one run: the plan of the run in progress
+// must kill two fresh processes; then single steps are tried alone (each step
+// of these engines is self-contained) and the smallest killing plan is written
+// as the replay file.
+func confirmCrash(p *Prop, cr *crashRec, tier, tmp string) (string, string, error) {
+	r := runWorker(cr.bin, &core.Request{Mode: "plan", Property: p.ID, Tier: tier, Seeds: []uint64{cr.seed}}, tmp, "crashplan", 2*time.Minute, 1)
+	if r.err != nil || len(r.recs) != 1 || r.recs[0].Plan == nil {
+		return "", "", fmt.Errorf("cannot regenerate the plan of seed %d: %v", cr.seed, r.err)
+	}
+	plan := r.recs[0].Plan
+	var line string
+	for i := 0; i < 2; i++ {
+		d, l := dies(cr.bin, plan, tmp, fmt.Sprintf("crashconf%d", i))
+		if !d {
+			return "", "", fmt.Errorf("the run in progress (seed %d) does not kill a fresh process (attempt %d)", cr.seed, i+1)
+		}
+		line = l
+	}
+	orig := len(plan.Steps)
+	small := plan
+	for i := 0; i < len(plan.Steps) && i < 8; i++ {
+		q := plan.Clone()
+		q.Steps = []json.RawMessage{plan.Steps[i]}
+		if d, l := dies(cr.bin, q, tmp, fmt.Sprintf("crashmin%d", i)); d {
+			if d2, _ := dies(cr.bin, q, tmp, fmt.Sprintf("crashmin%db", i)); d2 {
+				small, line = q, l
+				break
+			}
+		}
+	}
+	msg := fmt.Sprintf("the process executing this plan is killed by the code under test (%s): no recover contains it, a node decoding / validating the same input dies", line)
+	rf := &ReplayFile{Property: p.ID, Engine: small.Engine, Signature: p.ID + "/worker-process-killed", Oracle: "process-survives", Message: msg,
+		Original: orig, Minimised: len(small.Steps), Plan: small, Crash: true,
+		Violation: &core.Violation{Property: p.ID, Oracle: "process-survives", Signature: p.ID + "/worker-process-killed", Message: msg}}
+	dir := filepath.Join(outRoot, "replays", p.ID)
+	if err := os.MkdirAll(dir, 0755); err != nil {
+		return "", "", err
+	}
+	path := filepath.Join(dir, fmt.Sprintf("%d-crash.json", cr.seed))
+	b, _ := json.MarshalIndent(rf, "", " ")
+	if err := os.WriteFile(path, b, 0644); err != nil {
+		return "", "", err
+	}
+	return path, msg, nil
 }
 
 func minimiseAndWrite(bin string, p *Prop, vr *violRec, tmp string) (string, error) {
@@ -779,6 +895,14 @@ func replay(path string) int {
 	}
 	tmp := tmpRoot()
 	defer os.RemoveAll(tmp)
+	if rf.Crash {
+		if d, line := dies(bin, rf.Plan, tmp, "replaycrash"); d {
+			fmt.Printf("VIOLATION property=%s replay=%s\n  signature=%s\n  the process executing the plan died: %s\n", rf.Property, path, rf.Signature, line)
+			return 1
+		}
+		fmt.Printf("replay of %s: the process executing the plan survived\n", path)
+		return 0
+	}
 	r := runWorker(bin, &core.Request{Mode: "exec", Plan: rf.Plan, KeepLog: true}, tmp, "replay", 10*time.Minute, 1)
 	if r.err != nil || len(r.recs) != 1 {
 		fmt.Fprintf(os.Stderr, "HARNESS: replay run failed: %v\n", r.err)
